@@ -1,0 +1,7 @@
+//go:build verif
+
+package search
+
+// VerifSetCandSourceHook installs a callback told the name of the candidate
+// source the planner picked for each query (nil to remove).
+func VerifSetCandSourceHook(fn func(string)) { candSourceHook = fn }
